@@ -12,6 +12,7 @@ import (
 	"path/filepath"
 	"sync"
 	"testing"
+	"time"
 
 	"verifharness/refcrypt"
 	"verifharness/vh"
@@ -63,16 +64,24 @@ func TestCryptAll(t *testing.T) {
 				sep := make([]byte, n)
 				rng.Read(sep)
 				srcCopy := append([]byte(nil), src...)
-				p1 := safely(func() { bc.Encrypt(sep, src) })
+				// a BlockCrypt that has panicked is not used again (it may have died holding its own lock): a fresh one takes over
+				fresh := func(p bool) bool {
+					if p {
+						bc, err = su.New(key)
+						vh.Must(err)
+					}
+					return p
+				}
+				p1 := fresh(safely(func() { bc.Encrypt(sep, src) }))
 				inpl := append([]byte(nil), src...)
-				p2 := safely(func() { bc.Encrypt(inpl, inpl) })
+				p2 := fresh(safely(func() { bc.Encrypt(inpl, inpl) }))
 				// decrypt the reference ciphertext: separate and in place
 				dsep := make([]byte, n)
 				rng.Read(dsep)
 				refCopy := append([]byte(nil), ref...)
-				p3 := safely(func() { bc.Decrypt(dsep, ref) })
+				p3 := fresh(safely(func() { bc.Decrypt(dsep, ref) }))
 				dinpl := append([]byte(nil), ref...)
-				p4 := safely(func() { bc.Decrypt(dinpl, dinpl) })
+				p4 := fresh(safely(func() { bc.Decrypt(dinpl, dinpl) }))
 				ev := map[string]any{"ev": "len", "cipher": su.Name, "kind": su.Kind, "len": n,
 					"enc_sep": bytes.Equal(sep, ref), "enc_inplace": bytes.Equal(inpl, ref),
 					"dec_sep": bytes.Equal(dsep, src), "dec_inplace": bytes.Equal(dinpl, src),
@@ -107,14 +116,24 @@ func TestCryptAll(t *testing.T) {
 					su.RefEnc(key, ref, src)
 					got := make([]byte, n)
 					if g := i % 2; g == 0 {
-						bc.Encrypt(got, src)
+						if safely(func() { bc.Encrypt(got, src) }) {
+							mu.Lock()
+							mism += 1000 // a panic; the object may be dead: this caller stops
+							mu.Unlock()
+							return
+						}
 						if !bytes.Equal(got, ref) {
 							mu.Lock()
 							mism++
 							mu.Unlock()
 						}
 					} else {
-						bc.Decrypt(got, ref)
+						if safely(func() { bc.Decrypt(got, ref) }) {
+							mu.Lock()
+							mism += 1000
+							mu.Unlock()
+							return
+						}
 						if !bytes.Equal(got, src) {
 							mu.Lock()
 							mism++
@@ -124,9 +143,21 @@ func TestCryptAll(t *testing.T) {
 				}
 			}(rng.Int63())
 		}
-		wg.Wait()
-		tr.Add(map[string]any{"ev": "conc", "cipher": su.Name, "mismatches": mism})
-		sum.Kinds["conc-"+su.Name] = mism
+		// (a call that panicked may have left the object's own lock held: the other callers then wait for ever -- do not wait with them)
+		waited := make(chan struct{})
+		go func() { wg.Wait(); close(waited) }()
+		select {
+		case <-waited:
+		case <-time.After(60 * time.Second):
+			mu.Lock()
+			mism += 1000000
+			mu.Unlock()
+		}
+		mu.Lock()
+		mismNow := mism
+		mu.Unlock()
+		tr.Add(map[string]any{"ev": "conc", "cipher": su.Name, "mismatches": mismNow})
+		sum.Kinds["conc-"+su.Name] = mismNow
 		tf.WriteTrace(map[string]any{"cipher": su.Name, "kind": su.Kind}, tr)
 	}
 	vh.Must(tf.Close())
